@@ -56,9 +56,13 @@ def work(item, opts):
     from . import hooks
     hooks.cov_start()
     utils = bool(opts.get("utils"))
+    yielding = isinstance(item, dict) and item.get("yield") and case.get("mode") == "thread" and \
+        hooks.yield_start(f"{item.get('i')}-{item.get('workers')}", p=0.3)
     obs = run.run_case(case, cpu_budget=opts.get("cpu_budget", 120.0), delay=delay,
                        workdir=os.environ.get("PVMON_WORKDIR"), keep_result=utils,
                        record_args=bool(opts.get("record_args")))
+    if yielding:
+        obs["stats"]["yields_injected"] = hooks.yield_stop()
     if utils:
         result = obs.pop("_result", None)
         for k in ("_mon", "_log", "_opt"):
